@@ -411,6 +411,11 @@ class Ref:
             if nm == "Logit":
                 v = (x - self.lower) / self.delta
                 mx = np.maximum(np.abs(x), abs(self.lower))
+                # (x - lower is exact when the two lie within a factor 2 of each other -
+                # Sterbenz: only its result is then subject to later rounding)
+                st = (x * self.lower > 0) & (np.abs(x) <= 2 * abs(self.lower)) & \
+                    (abs(self.lower) <= 2 * np.abs(x))
+                mx = np.where(st, np.abs(x - self.lower), mx)
                 return ay + 1.0 / v + 1.0 / (1 - v) + mx / (self.delta * v * (1 - v))
             if nm == "Log":
                 z = x + p["nu"]
